@@ -534,6 +534,11 @@ impl Curve {
     }
 
     pub fn scalar64_mul(&self, k: u64, p: &Point) -> Point {
+        if k == 0 {
+            // Neutral element, as in ecm::Curve::scalar64_chainmul
+            // (the chain [0] would otherwise select P itself).
+            return Point(M128(0), self.one, self.one);
+        }
         // Prepare small steps.
         let pext = self.ext(p);
         let p2 = self.dblext(p);
